@@ -4,20 +4,17 @@ From Coq Require Import List NArith String Lia Bool.
 From Coq Require Import ZifyBool ZifyNat ZifyN.
 Import ListNotations.
 From Modbus Require Import Base.Bytes Model.GoLite Gen.SrcPure Model.Crc Model.Encoding.
-From Modbus Require Import Proofs.CrcP Proofs.GoLiteP.
+From Modbus Require Import Spec.ModbusSpec Proofs.CrcP Proofs.GoLiteP Proofs.GoLiteLinkP.
 Open Scope N_scope.
 
 Definition ge : genv := globals (p_globals src_pure).
 
 (* environment seen by the body of [name]: the functions listed before it *)
-Fixpoint prefix_before (name : string) (fs : list (string * fn)) : list (string * fn) :=
-  match fs with
-  | [] => []
-  | (n, f) :: t => if String.eqb n name then [] else (n, f) :: prefix_before name t
-  end.
+Definition env_of (name : string) (fuel : nat) : fenv := env_in src_pure name fuel.
 
-Definition env_of (name : string) (fuel : nat) : fenv :=
-  link ge fuel (prefix_before name (p_fns src_pure)) no_fns.
+Ltac link_step name f := rewrite (call_env src_pure name f eq_refl eq_refl).
+Ltac callee caller name g :=
+  rewrite (env_call src_pure caller name g eq_refl eq_refl eq_refl eq_refl eq_refl).
 
 (* ---------------------------------------------------------------- the table *)
 
@@ -143,64 +140,35 @@ Qed.
 
 (* ---------------------------------------------------------------- linked program *)
 
-Lemma call_crc_init fuel args :
-  call src_pure fuel "crc.init" args = run_fn ge (env_of "crc.init" fuel) fuel src_fn_crc_init args.
-Proof. reflexivity. Qed.
-
-Lemma call_crc_add fuel args :
-  call src_pure fuel "crc.add" args = run_fn ge (env_of "crc.add" fuel) fuel src_fn_crc_add args.
-Proof. reflexivity. Qed.
-
-Lemma call_uint16ToBytes fuel args :
-  call src_pure fuel "uint16ToBytes" args =
-  run_fn ge (env_of "uint16ToBytes" fuel) fuel src_fn_uint16ToBytes args.
-Proof. reflexivity. Qed.
-
-Lemma call_bytesToUint16 fuel args :
-  call src_pure fuel "bytesToUint16" args =
-  run_fn ge (env_of "bytesToUint16" fuel) fuel src_fn_bytesToUint16 args.
-Proof. reflexivity. Qed.
-
-Lemma call_crc_value fuel args :
-  call src_pure fuel "crc.value" args = run_fn ge (env_of "crc.value" fuel) fuel src_fn_crc_value args.
-Proof. reflexivity. Qed.
-
-Lemma call_crc_isEqual fuel args :
-  call src_pure fuel "crc.isEqual" args =
-  run_fn ge (env_of "crc.isEqual" fuel) fuel src_fn_crc_isEqual args.
-Proof. reflexivity. Qed.
-
 Lemma src_crc_init_ok fuel s : call src_pure fuel "crc.init" [VN s] = Ok [VN crc_init].
-Proof. rewrite call_crc_init. apply run_crc_init. Qed.
+Proof. link_step "crc.init"%string src_fn_crc_init. apply run_crc_init. Qed.
 
 Lemma src_crc_add_ok fuel s l : bytesb l = true ->
   call src_pure fuel "crc.add" [VN s; vbytes l] = Ok [VN (crc_from s l)].
-Proof. intros H. rewrite call_crc_add. apply run_crc_add. exact H. Qed.
+Proof. intros H. link_step "crc.add"%string src_fn_crc_add. apply run_crc_add. exact H. Qed.
 
 Lemma src_uint16ToBytes_ok fuel e v :
   call src_pure fuel "uint16ToBytes" [VN (endian_sel e); VN v] = Ok [vbytes (u16_to_bytes e v)].
-Proof. rewrite call_uint16ToBytes. apply run_uint16ToBytes. Qed.
+Proof. link_step "uint16ToBytes"%string src_fn_uint16ToBytes. apply run_uint16ToBytes. Qed.
 
 Lemma src_bytesToUint16_ok fuel e l :
   call src_pure fuel "bytesToUint16" [VN (endian_sel e); vbytes l] =
   match bytes_to_u16 e l with Some v => Ok [VN v] | None => Panic end.
-Proof. rewrite call_bytesToUint16. apply run_bytesToUint16. Qed.
+Proof. link_step "bytesToUint16"%string src_fn_bytesToUint16. apply run_bytesToUint16. Qed.
 
 Lemma src_crc_value_ok fuel s :
   call src_pure fuel "crc.value" [VN s] = Ok [VN s; vbytes (crc_value s)].
 Proof.
-  rewrite call_crc_value. apply run_crc_value. intros e v.
-  change (env_of "crc.value" fuel "uint16ToBytes"%string [VN (endian_sel e); VN v])
-    with (call src_pure fuel "uint16ToBytes" [VN (endian_sel e); VN v]).
+  link_step "crc.value"%string src_fn_crc_value. apply run_crc_value. intros e v.
+  callee "crc.value"%string "uint16ToBytes"%string src_fn_uint16ToBytes.
   apply src_uint16ToBytes_ok.
 Qed.
 
 Lemma src_crc_isEqual_ok fuel s lo hi :
   call src_pure fuel "crc.isEqual" [VN s; VN lo; VN hi] = Ok [VN s; VB (crc_is_equal s lo hi)].
 Proof.
-  rewrite call_crc_isEqual. apply run_crc_isEqual. intros e l.
-  change (env_of "crc.isEqual" fuel "bytesToUint16"%string [VN (endian_sel e); vbytes l])
-    with (call src_pure fuel "bytesToUint16" [VN (endian_sel e); vbytes l]).
+  link_step "crc.isEqual"%string src_fn_crc_isEqual. apply run_crc_isEqual. intros e l.
+  callee "crc.isEqual"%string "bytesToUint16"%string src_fn_bytesToUint16.
   apply src_bytesToUint16_ok.
 Qed.
 
@@ -215,4 +183,12 @@ Proof.
   intros Hl. exists crc_init. split; [apply src_crc_init_ok|].
   exists (crc16 l). split; [apply src_crc_add_ok; exact Hl|].
   apply src_crc_value_ok.
+Qed.
+
+Lemma src_crc_add_ref fuel l : bytesb l = true ->
+  call src_pure fuel "crc.add" [VN 0xffff; vbytes l] = Ok [VN (crc_ref l)].
+Proof.
+  intros Hl. rewrite src_crc_add_ok by exact Hl.
+  change (crc_from 65535 l) with (crc16 l).
+  rewrite crc16_is_ref by exact Hl. reflexivity.
 Qed.
